@@ -749,3 +749,58 @@ def tsan_mon(ctx, name, args, timeout=2400, owner=None, env_extra=None):
             os.unlink(outp)
         except OSError:
             pass
+
+
+# --------------------------------------------------------------------------------------------
+# Evidence only: llvm-cov line coverage of the anchored source files under a monitor workload
+# --------------------------------------------------------------------------------------------
+def coverage_evidence(ctx, monitors, sources, scale="0.2"):
+    """Builds `mon` with -Cinstrument-coverage (nightly, so that the sysroot's llvm-tools match),
+    runs the given monitor subcommands at reduced scale and records, per anchored source file,
+    how many lines the workload executed and which lines it never reached. Never a verdict."""
+    try:
+        rc, sysroot, _ = run(["rustc", "+nightly", "--print", "sysroot"], timeout=60)
+        bindir = os.path.join(sysroot.strip(), "lib", "rustlib", "x86_64-unknown-linux-gnu", "bin")
+        profdata, cov = os.path.join(bindir, "llvm-profdata"), os.path.join(bindir, "llvm-cov")
+        if not (os.path.exists(profdata) and os.path.exists(cov)):
+            ctx.note_inconclusive("coverage evidence: llvm-tools not found")
+            return
+        exe = cargo_build("cov", "debug", extra_rustflags="-Cinstrument-coverage", toolchain="nightly", target_subdir="cov",
+                          features=["--features", "full"])
+        d = tempfile.mkdtemp(prefix="verif-cov-")
+        try:
+            for m in monitors:
+                env = env_base()
+                env["LLVM_PROFILE_FILE"] = os.path.join(d, "%s-%%p.profraw" % m.split()[0])
+                fd, outp = tempfile.mkstemp(prefix="verif-rep-", suffix=".json")
+                os.close(fd)
+                run([exe] + m.split() + ["--scale", scale, "--seed", str(ctx.seed), "--out", outp], env=env, timeout=1800)
+                os.unlink(outp)
+            raws = [os.path.join(d, f) for f in os.listdir(d) if f.endswith(".profraw")]
+            if not raws:
+                ctx.note_inconclusive("coverage evidence: no profile written")
+                return
+            merged = os.path.join(d, "all.profdata")
+            rc, out, _ = run([profdata, "merge", "-sparse"] + raws + ["-o", merged], timeout=600)
+            if rc != 0:
+                ctx.note_inconclusive("coverage evidence: llvm-profdata failed: %s" % out[-200:])
+                return
+            p = subprocess.run([cov, "export", exe, "-instr-profile=" + merged, "--format=lcov", "--sources"] + sources,
+                               stdout=subprocess.PIPE, stderr=subprocess.DEVNULL, timeout=600)
+            res = {}
+            cur, tot, miss = None, 0, []
+            for line in p.stdout.decode("utf-8", "replace").splitlines():
+                if line.startswith("SF:"):
+                    cur, tot, miss = line[3:], 0, []
+                elif line.startswith("DA:"):
+                    n, c = line[3:].split(",")[:2]
+                    tot += 1
+                    if c == "0":
+                        miss.append(int(n))
+                elif line == "end_of_record" and cur:
+                    res[cur] = {"lines_instrumented": tot, "lines_executed": tot - len(miss), "unreached_lines": miss[:80]}
+            ctx.observations["llvm_cov_of_anchored_files"] = {"workload": monitors, "scale": scale, "files": res}
+        finally:
+            shutil.rmtree(d, ignore_errors=True)
+    except HarnessError as e:
+        ctx.note_inconclusive("coverage evidence unavailable: %s" % str(e)[-200:])
